@@ -209,7 +209,7 @@ func runC08(t *rapid.T, w *rep.Worker) {
 				continue
 			}
 			_, kn := wirex.ReadVarint(orig[it.Start:])
-			for _, nl := range []uint64{it.U + 1, uint64(len(orig)), 1 << 20, 1 << 30, 1<<31 - 1, 1 << 31, 1 << 63} {
+			for _, nl := range []uint64{it.U + 1, uint64(len(orig)), 1 << 20, 1 << 24, 1 << 27, 1 << 30, 1<<31 - 1, 1 << 31, 1 << 63} {
 				nb := append([]byte{}, orig[:it.Start+kn]...)
 				nb = wirex.AppendVarint(nb, nl)
 				nb = append(nb, orig[it.PayStart:]...)
@@ -234,7 +234,7 @@ func runC08(t *rapid.T, w *rep.Worker) {
 		// allocation: linear in the input with a generous constant; a suspicious reading is confirmed by repetition
 		limit := uint64(4096*len(v.b) + 1<<20)
 		al := g.alloc
-		for r := 0; r < 3 && al > limit; r++ {
+		for r := 0; r < 3 && al > limit && al < limit+(32<<20); r++ { // far over the limit is no accounting noise; do not repeat a huge allocation
 			// confirm with the exact, stop-the-world counter (runtime/metrics attributes small allocations per span refill)
 			var m0, m1 runtime.MemStats
 			runtime.ReadMemStats(&m0)
